@@ -1,5 +1,6 @@
 """O3.1 - utf8_decode_next accepts exactly the well-formed UTF-8 sequences of RFC 3629 (interval abstract
 interpretation, lib/decoder_ai.py) and keeps the bookkeeping that is_6531_local relies on."""
+import re
 import decoder_ai as D
 import cfgpaths
 from astutil import where
@@ -62,6 +63,9 @@ def run(ck, tu, site='src/utf8_decode.c:utf8_decode_next', ids=('O3.1a', 'O3.1b'
     d3.instance(f'{unit}:utf8_decode_at_byte', ok=okb, wclass='at_byte', what='utf8_decode_at_byte does not return the_byte')
     e, ps = cfgpaths.summarise(tu, 'utf8_decode_init')
     want = {fld + 'the_index': '0', fld + 'the_input': 'p', fld + 'the_length': 'length', fld + 'the_byte': '0'}
+    # paths that only exist for a NULL state / input pointer are guards, not initialisations
+    def guard(p): return any(e[0] == 'cond' and re.fullmatch(r'\(?!?\(?(u|p)\)?( == NULL)?\)?', e[1]) and ((e[2] and ('== NULL' in e[1] or e[1].lstrip('(').startswith('!'))) or (not e[2] and e[1] in ('u', 'p'))) for e in p.events)
+    ps = [p for p in ps if not guard(p)]
     oki = len(ps) == 1 and all(ps[0].last_set(k) is not None and ps[0].last_set(k)[2] == v for k, v in want.items())
     d3.instance(f'{unit}:utf8_decode_init', ok=oki, wclass='init', what='utf8_decode_init does not set index 0 / input / length / the_byte 0', detail=ps[0].text() if ps else None)
     ck.sample({'decoder_cells': len(cells), 'abstract_runs': nrun, 'accepted_boxes': sum(len(v) for v in accepted.values()),
